@@ -223,6 +223,23 @@ def main():
             wt = f'{d}/{pid}'
             worktree(wt)
             open(f'{d}/prompt_{pid}.txt', 'w').write(AUDIT_TMPL.format(wt=wt, id=pid, title=pr['title'], statement=pr['statement'], quant=pr['quantifier']['text'], extra=(LAB_NOTE if pid == "C20" else "") + note))
+    elif kind == "audit3":
+        props = {json.loads(l)['id']: json.loads(l) for l in open('/verif/properties.jsonl')}
+        note = ("\n\nThis is a THIRD audit. `git log --oneline | grep fix:` in the worktree lists the defects already found and repaired (two earlier audits) - do not report those again. "
+                "Also already known, do NOT report: numpy scalar types refused with TypeError by parameters documented as int/float; wrap-around of narrow integer dtypes; zero-length fibres; "
+                "the odd edge extension of sosfiltfilt in LPF/BPF/PD (end samples unfiltered, short-record tones gaining power, PD noise variance at narrow bandwidth); the soft-decision BER computed as "
+                "1 - quad(...) losing accuracy below 1e-8; FIBER's beta2/gamma relative sign; noise components left unpropagated by DM/FIBER/FBG/SYNC; tab/newline separators and the empty string in 0/1 text; "
+                "a numpy value on the LEFT of a comparison with a signal; gv keywords that collide with gv's own attribute names; PD with BW >= fs/2; NaN arguments. "
+                "This time use RELATIONS instead of reference values: (1) every identity the statement asserts between two calls (round trips, compositions, a sibling that must agree, a scalar call vs the "
+                "same value in a length-1 array, one call vs the same work split into two calls, a two-polarisation call vs two one-polarisation calls, an object with noise=0 vs without noise, "
+                "an argument given positionally vs by keyword vs left at its documented default); (2) invariance under what the statement says does not matter (units/scale, offset, order of calls, "
+                "container type, dtype among float64/complex128/int64, C vs Fortran order, a view vs a copy, read-only input arrays); (3) monotonicity/continuity where the statement implies it "
+                "(sweep one parameter finely across the WHOLE stated range including both inclusive ends and look for jumps, NaN, sign changes). Generate the structured inputs systematically "
+                "(all small cases exhaustively, then seeded random ones). Prefer silent wrong answers over loud exceptions, but report both.")
+        for pid, pr in props.items():
+            wt = f'{d}/{pid}'
+            worktree(wt)
+            open(f'{d}/prompt_{pid}.txt', 'w').write(AUDIT_TMPL.format(wt=wt, id=pid, title=pr['title'], statement=pr['statement'], quant=pr['quantifier']['text'], extra=(LAB_NOTE if pid == "C20" else "") + note))
     elif kind == "small3":
         props = {json.loads(l)['id']: json.loads(l) for l in open('/verif/properties.jsonl')}
         note = ("\n\nAdditional requirement for this round: `git log --oneline | grep fix:` lists recent repairs. At least THREE of your five commits must edit a function (or the very lines) "
